@@ -262,12 +262,33 @@ class Interp:
     def __init__(self, ctx):
         self.ctx = ctx
         self.ev = ev = mk_ev(ctx)
+        # the function that owns the equation loop: ADEV.eval_jaxpr_adev itself, or a module-level function of genjax.adev it hands the
+        # program to (the loop hoisted out of the method)
+        def find_inv(s):
+            calls = [e[2] for e in s.events if e[1] == "call"]
+            inv = [t for t in calls if t[1][0] == "name" and t[1][1].split(".")[-1] in ("safe_map", "map") and len(t[2]) == 2 and t[2][1][0] == "attr" and t[2][1][2] == "invars"
+                   and any(isinstance(c, tuple) and c and c[0] == "loop" for e in s.events if e[2] is t for c, _ in e[0])
+                   and any(u[1] == ("attr", ("attr", t[2][1][1], "primitive"), "get_bind_params") for u in calls)
+                   and any(is_call(u, name=PJ + "PPPrimitive.unwrap") and u[2] == (("attr", t[2][1][1], "primitive"),) for u in calls)]
+            return calls, inv
         self.dotted = AD + "ADEV.eval_jaxpr_adev"
         self.s = s = summarize(ctx, ev, self.dotted)
+        calls, inv = find_inv(s)
+        if not inv:
+            cands = list(dict.fromkeys(x[1][1] for t in calls for x in subterms(t) if is_call(x) and x[1][0] == "name" and x[1][1].startswith(AD)
+                                       and (ctx.p.lookup(x[1][1]) or (None,))[0] == "func"))
+            for d in cands:
+                ev2 = mk_ev(ctx)
+                try:
+                    s2 = summarize(ctx, ev2, d)
+                except AnalysisError:
+                    continue
+                c2, i2 = find_inv(s2)
+                if i2:
+                    self.ev = ev = ev2
+                    self.dotted, self.s, s, calls, inv = d, s2, s2, c2, i2
+                    break
         self.loc = func_loc(ctx, self.dotted)
-        calls = [e[2] for e in s.events if e[1] == "call"]
-        inv = [t for t in calls if t[1][0] == "name" and t[1][1].split(".")[-1] in ("safe_map", "map") and len(t[2]) == 2 and t[2][1][0] == "attr" and t[2][1][2] == "invars"
-               and any(isinstance(c, tuple) and c and c[0] == "loop" for e in s.events if e[2] is t for c, _ in e[0])]
         ctx.need(bool(inv), "ADEV.eval_jaxpr_adev: read of the equation's inputs not found (anchor vanished)")
         self.INVALS = inv[0]
         self.EQN = inv[0][2][1][1]
@@ -337,6 +358,12 @@ def kont_target(ev, clo_val, nargs_terms):
             cl = ev.closures.get(pl[1][1])
             if cl is not None and cl.qual.split(".")[-1].startswith("eval_jaxpr_iterate"):
                 return cl.qual.split(".")[-1], pl[2], g
+        # the evaluation loops hoisted to module level: a private function of genjax.adev named for the mode it evaluates in
+        if k == "call" and pl[1][0] == "name" and pl[1][1].startswith(AD) and (ev.p.lookup(pl[1][1]) or (None,))[0] == "func":
+            nm = pl[1][1].split(".")[-1]
+            for which in ("pure", "dual"):
+                if "eval" in nm and which in nm and len(pl[2]) >= 4 and not pl[3]:
+                    return f"eval_jaxpr_iterate_{which}", pl[2][:4], g
     return None, None, None
 
 
